@@ -10,6 +10,8 @@ A contact is put into one of the states
   transfer     session up, an own three-segment bundle queued, the peer has not acknowledged anything
   ending       session up, terminate() already called on this contact, the peer has not answered
   refused      as transfer; the peer will answer the completely sent bundle with XFER_REFUSE instead of acknowledging it
+  refused-late as refused, but the peer writes its XFER_REFUSE only after its SESS_TERM reply (the disposition of the
+               last outstanding transfer is then the last thing the endpoint hears: it has to close on it)
 
 then the action is applied to the agent, and from then on every peer cooperates
 fully: it completes the handshake if the endpoint still wants it, acknowledges
@@ -21,7 +23,8 @@ import dbus
 
 from . import ref9174 as r, simloop, simnet, tcpcl_world as tw
 
-STATES = ['connecting', 'negotiating', 'established', 'transfer', 'ending', 'refused']
+STATES = ['connecting', 'negotiating', 'established', 'transfer', 'ending', 'refused', 'refused-late']
+REFUSING = ('refused', 'refused-late')
 # one more, used with active contacts only: the peer has answered the contact header, and its SESS_INIT together with the
 # first segment of a transfer of its own are on their way (not yet delivered) when the action is applied
 PEER_AHEAD = 'peer-ahead'
@@ -90,7 +93,9 @@ class Contact(object):
                 if seg['flags'] & 2:
                     cum[seg['id']] = 0
                 cum[seg['id']] = cum.get(seg['id'], 0) + len(seg['data']) // 2
-                if idx >= self.acked and self.state == 'refused':
+                if idx >= self.acked and self.state == 'refused-late' and seg['flags'] & 1 and not self.replied:
+                    break       # the refusal waits until the peer has answered the endpoint's SESS_TERM
+                if idx >= self.acked and self.state in REFUSING:
                     if seg['flags'] & 1:
                         self.peer_send({'t': 'XFER_REFUSE', 'reason': 2, 'id': seg['id']})
                     self.acked = idx + 1
@@ -176,7 +181,7 @@ class AgentWorld(object):
                 con.peer_send({'t': 'XFER_SEGMENT', 'flags': 2, 'id': 77, 'ext': [], 'data': b'abc'.hex()})
                 con.ahead = 'started'
         for con in self.contacts:
-            if con.state in ('transfer', 'refused'):
+            if con.state in ('transfer',) + REFUSING:
                 con.level = 'ch'      # stop acknowledging
                 con.own_id = self.call_hdl(con, 'send_bundle_data', dbus.ByteArray(BUNDLE))
             elif con.state == 'ending':
